@@ -177,7 +177,7 @@ Print Assumptions width_irrelevant_from_coo.
         needed = max(total nnz, joined row count)  (36b3bc9) *)
 Theorem width_irrelevant_gcxs_join : forall t ptrs,
   std t -> Forall ptr_ok ptrs ->
-  s_gcxs_join_needed (zsum (map snd ptrs)) (joined_len ptrs) < 2 ^ 64 ->
+  jneeded (zsum (map snd ptrs)) (joined_len ptrs) < 2 ^ 64 ->
   rmap tv (m_gcxs_join (DInt t) ptrs) = rmap tv (m_gcxs_join DInf ptrs).
 Proof. exact width_irrelevant_gcxs_join_proof. Qed.
 Print Assumptions width_irrelevant_gcxs_join.
@@ -186,7 +186,7 @@ Print Assumptions width_irrelevant_gcxs_join.
    full statement for every join result (finding gcxs_rows_exceed_indptr_dtype repaired) *)
 Theorem width_irrelevant_gcxs_join_uncompress : forall t ptrs a,
   std t -> Forall ptr_ok ptrs ->
-  s_gcxs_join_needed (zsum (map snd ptrs)) (joined_len ptrs) < 2 ^ 64 ->
+  jneeded (zsum (map snd ptrs)) (joined_len ptrs) < 2 ^ 64 ->
   m_gcxs_join (DInt t) ptrs = Ok a ->
   tv (m_uncompress (tdt a) (tv a)) = tv (m_uncompress DInf (tv a)).
 Proof. exact gcxs_join_uncompress_proof. Qed.
@@ -264,3 +264,14 @@ Theorem ctor_empty_coords_intp : forall d axis0,
   promote (m_ctor_empty_dtype d) (DInt i64) = DInt i64.
 Proof. exact ctor_empty_coords_intp_proof. Qed.
 Print Assumptions ctor_empty_coords_intp.
+
+(* ---- diagonal: the Numba kernel _diagonal_idx decides membership by the regenerated condition
+        (coordlist[axis1][i] + offset == coordlist[axis2][i]); under Numba's promotion (Lib/MachInt.v
+        nb_promote, validated against Numba on every run) the sum is an int64, so the test is exact for every index type and every sign of the offset — a difference of
+        two unsigned coordinates would not be *)
+Theorem diagonal_test_exact : forall t n1 a1 a2 offset,
+  std t -> coords_in n1 a1 -> n1 < 2 ^ 62 -> - 2 ^ 62 <= offset <= 2 ^ 62 ->
+  m_diagonal_mask (DInt t) a1 a2 offset = map (fun p => fst p + offset =? snd p) (combine a1 a2) /\
+  m_diagonal_mask (DInt t) a1 a2 offset = m_diagonal_mask DInf a1 a2 offset.
+Proof. exact diagonal_test_exact_proof. Qed.
+Print Assumptions diagonal_test_exact.
